@@ -80,6 +80,12 @@ class ELBO(CallableModel):
                 lp = (self.p() - self.q()).mean()
         return lp
 
+    def __call__(self, *args, **kwargs) -> torch.Tensor:
+        # a stochastic objective is never answered from the CallableModel cache:
+        # every request draws fresh samples with the requested sample shape
+        self.lp_needs_update = True
+        return super().__call__(*args, **kwargs)
+
     def handle_parameter_changed(self, variable, index, event):
         pass
 
@@ -142,6 +148,12 @@ class KLpq(CallableModel):
         # over the leading one (if any)
         return torch.sum(log_w_norm.exp() * log_w, -1).mean()
 
+    def __call__(self, *args, **kwargs) -> torch.Tensor:
+        # a stochastic objective is never answered from the CallableModel cache:
+        # every request draws fresh samples with the requested sample shape
+        self.lp_needs_update = True
+        return super().__call__(*args, **kwargs)
+
     def handle_parameter_changed(self, variable, index, event):
         pass
 
@@ -197,6 +209,12 @@ class KLpqImportance(CallableModel):
         return -torch.sum(w_norm * log_q)
         # log_w_norm = log_w - torch.logsumexp(log_w, -1)
         # return torch.sum(log_w_norm.exp() * log_q)
+
+    def __call__(self, *args, **kwargs) -> torch.Tensor:
+        # a stochastic objective is never answered from the CallableModel cache:
+        # every request draws fresh samples with the requested sample shape
+        self.lp_needs_update = True
+        return super().__call__(*args, **kwargs)
 
     def handle_parameter_changed(self, variable, index, event):
         pass
@@ -292,6 +310,12 @@ class SELBO(CallableModel):
                     log_probs.append((self.p() - q().sum(-1)).mean().unsqueeze(0))
             lp = (self.weights.tensor * torch.cat(log_probs)).sum()
         return lp
+
+    def __call__(self, *args, **kwargs) -> torch.Tensor:
+        # a stochastic objective is never answered from the CallableModel cache:
+        # every request draws fresh samples with the requested sample shape
+        self.lp_needs_update = True
+        return super().__call__(*args, **kwargs)
 
     def handle_parameter_changed(self, variable, index, event):
         pass
